@@ -33,10 +33,10 @@ func init() {
 				l = append(l, fw.Case{Idx: len(l), Kind: "lines", N: sq})
 			}
 			l = append(l, fw.Case{Idx: len(l), Kind: "leapers"})
-			l = mkCases(l, "pawns", 16, seed, pick(tier, 5000, 50000))
-			l = mkCases(l, "occ", 16, seed, pick(tier, 4000, 40000))
-			l = mkCases(l, "xor", 16, seed, pick(tier, 2000, 20000))
-			l = mkCases(l, "derived", 32, seed, pick(tier, 400, 6000))
+			l = mkCases(l, "pawns", 16, seed, pick(tier, 5000, 400000))
+			l = mkCases(l, "occ", 16, seed, pick(tier, 4000, 400000))
+			l = mkCases(l, "xor", 16, seed, pick(tier, 2000, 200000))
+			l = mkCases(l, "derived", 32, seed, pick(tier, 400, 40000))
 			return l
 		},
 		Floors: func(tier string) map[string]int64 {
